@@ -114,6 +114,22 @@ def run_history(h, seed, rep, case):
             peers.append(p)
         cli = await simnet.make_context(net, "10.0.0.2", 40001, None, server=False)
         recs = []
+        # boundary recorder: the position in the wire log at which each request becomes outstanding
+        # (TokenManager.request, instance wrapper) - several things can happen in one virtual instant
+        reg_seq = {}
+        tman = cli.request_interfaces[0]
+        orig_request = tman.request
+
+        def request_wrapper(pipe):
+            try:
+                p0 = pipe.request.opt.uri_path[0]
+                if p0.startswith("q"):
+                    reg_seq.setdefault(int(p0[1:]), len(net.log))
+            except Exception:
+                pass
+            return orig_request(pipe)
+
+        tman.request = request_wrapper
 
         def submit(spec):
             ip, port = h["servers"][spec["srv"]]
@@ -177,12 +193,13 @@ def run_history(h, seed, rep, case):
         if h["shutdown_at"] > now:
             await asyncio.sleep(h["shutdown_at"] - now)
         t_shutdown = loop.time()
+        sd_mark = len(net.log)
         await cli.shutdown()
         t_shutdown_done = loop.time()
         await asyncio.sleep(10)
         for rec in recs:
             rec.pop("rq")
-        box.update(net=net, C=C, recs=recs, t_shutdown=t_shutdown, t_shutdown_done=t_shutdown_done)
+        box.update(net=net, C=C, recs=recs, t_shutdown=t_shutdown, t_shutdown_done=t_shutdown_done, reg_seq=reg_seq, sd_mark=sd_mark)
         return True
 
     res = scenario.run(main, seed, horizon=1e5)
@@ -232,12 +249,15 @@ def judge(box, h, res, rep, case):
             del open_ex[k]
 
     # requests that never reached the wire (held back behind another exchange) are outstanding from their call
-    pending_calls = sorted([(x["t_call"], x["spec"]["i"]) for x in recs])
+    reg_seq = box["reg_seq"]
+    sd_mark = box["sd_mark"]
+    pending_calls = sorted([(reg_seq.get(x["spec"]["i"], 10**12), x["t_call"], x["spec"]["i"]) for x in recs])
     dst_of = {x["spec"]["i"]: servers[x["spec"]["srv"]] for x in recs}
 
-    def register_until(t):
-        while pending_calls and pending_calls[0][0] <= t + 1e-12:
-            tc, i = pending_calls.pop(0)
+    def register_until(seq):
+        # a request is outstanding from the log position at which the token manager took it
+        while pending_calls and pending_calls[0][0] <= seq:
+            _, tc, i = pending_calls.pop(0)
             if i not in state:
                 state[i] = "out"
                 reg[i] = {"dst": dst_of[i], "t": tc}
@@ -259,13 +279,10 @@ def judge(box, h, res, rep, case):
     unmatched_con, matched_con = [], []
     wrong_source_forgeries = 0
     for e in events:
-        if e.t >= t_sd - 1e-12 and e.kind != "send":
-            # shutdown begins: everything outstanding fails with the shutdown error
-            pass
-        register_until(e.t)
-        giveups_until(e.t if e.t < t_sd else t_sd)
-        if e.t >= t_sd - 1e-12:
-            break
+        if e.seq >= sd_mark:
+            break  # shutdown begins here: everything outstanding fails with the shutdown error
+        register_until(e.seq)
+        giveups_until(e.t)
         if e.kind == "send" and e.src == C and e.msg is not None and rc.is_request(e.msg.code) and e.msg.type == rc.CON:
             k = (e.dst, e.msg.mid)
             ex = open_ex.get(k)
@@ -308,7 +325,7 @@ def judge(box, h, res, rep, case):
                     unmatched_con.append(e)
                 if e.src not in servers and any(d["token"] == m.token for d in by_i.values()):
                     wrong_source_forgeries += 1
-    register_until(t_sd)
+    register_until(sd_mark)
     giveups_until(t_sd)
     for i, st in list(state.items()):
         if st == "out":
